@@ -4,7 +4,7 @@ from __future__ import annotations
 import ast
 
 from harness import impl
-from harness.common import rng, short
+from harness.common import quick_scale, rng, short
 from harness.gen import corpus, xonshgen
 
 
@@ -55,7 +55,7 @@ def dispatch(kind, x, t, variant="shipped"):
 
 def build_inputs(tier):
     r = rng("C06")
-    N = 1 if tier == "quick" else 60
+    N = quick_scale() if tier == "quick" else 60
     cases = []
     for x, t, where in corpus.xonsh_pairs():
         if where == "exprs" and x[:2] in ("$(", "$[", "!(", "![") and "\n" not in x and "!" not in x[2:]:
